@@ -48,6 +48,21 @@ def _try_uuid(s):
         return False
 
 
+# predicates derived from the MIR of and_then closures that are not in the frozen table (filled by the caller): closure def path -> accept(str)
+DERIVED_ACCEPT = {}
+
+
+def andthen_accept(n):
+    """acceptance predicate of the and_then closure of node n, or None if it is unknown"""
+    if n[2] in ANDTHEN_ACCEPT and (len(n) < 4 or n[3] is None or n[3].startswith(P + n[2] + "::")):
+        return ANDTHEN_ACCEPT[n[2]]
+    if len(n) >= 4 and n[3] in DERIVED_ACCEPT:
+        return DERIVED_ACCEPT[n[3]]
+    if n[2] in ANDTHEN_ACCEPT:
+        return ANDTHEN_ACCEPT[n[2]]
+    return None
+
+
 class Builder:
     def __init__(self, hir):
         self.hir = hir
@@ -132,7 +147,9 @@ class Builder:
             if m == "or":
                 return ("alt", [recv, self.expr(n["args"][0], env, fname)])
             if m in ("and_then", "then", "then_partial"):
-                return ("andthen", recv, fname)
+                a0 = n["args"][0] if n.get("args") else None
+                cdef = a0.get("def") if isinstance(a0, dict) and a0.get("k") == "closure" else None
+                return ("andthen", recv, fname, cdef)
             return ("unknown", "." + m)
         if k == "closure":
             return ("unknown", "closure")
@@ -167,7 +184,7 @@ def flatten(n):
     if k in ("opt", "many", "many1", "attempt", "not"):
         return (k, flatten(n[1]))
     if k == "andthen":
-        return ("andthen", flatten(n[1]), n[2])
+        return ("andthen", flatten(n[1]), n[2]) + tuple(n[3:])
     return n
 
 
@@ -290,7 +307,7 @@ def analyse(n, follow, in_attempt, findings, ctx):
         body = n[1]
         # a keyword that may follow must neither be accepted as a value by the body (G1) nor be consumed and then
         # rejected by it (G2): decided by running the body (combine semantics) on `kw <any> <any> <any>`
-        for kw in sorted(follow):
+        for kw in sorted(follow) + sorted(k2.lower() for k2 in follow if k2.lower() != k2):     # keywords are matched in any case
             r = WildRun([("lit", kw), ("wild",), ("wild",), ("wild",)])
             ok, cons, p2 = r.parse(body, 0)
             who = r.first_reader
@@ -356,7 +373,7 @@ class Run:
             ok, c, p2 = self.parse(n[1], pos)
             if not ok:
                 return False, c, pos
-            acc = ANDTHEN_ACCEPT.get(n[2], lambda s: True) if single_token(n[1]) else (lambda s: True)
+            acc = (andthen_accept(n) or (lambda s: True)) if single_token(n[1]) else (lambda s: True)
             if p2 > pos and not acc(self.toks[p2 - 1]):
                 self.failed_in = n[2]
                 return False, c, pos       # committed failure when c is True
@@ -727,7 +744,7 @@ class WildRun(Run):
             if p2 > pos and self.toks[p2 - 1] is None:
                 self.consumed_by[p2 - 1] = ("leaf", n[2])
                 return True, c, p2
-            acc = ANDTHEN_ACCEPT.get(n[2], lambda s: True)
+            acc = andthen_accept(n) or (lambda s: True)
             if p2 > pos and not acc(self.toks[p2 - 1]):
                 self.failed_in = n[2]
                 return False, c, pos
